@@ -323,9 +323,9 @@ def first_diff(a: T.Any, b: T.Any, path: str = '') -> T.Tuple[str, T.Any, T.Any]
 # `live_option_values`): both values of every bool, several values of every int, every member of a Literal
 # (end_of_line); the lists below only add interesting values for the fields known when this was written.
 KNOWN_VALUES: T.Dict[str, T.List[T.Any]] = {
-    'max_line_length': [80, 20, 40, 0, 200],
-    'indent_by': ['    ', '  ', '\t', ' '],
-    'tab_width': [4, 8, 1],
+    'max_line_length': [80, 20, 40, 0, 1, 200],
+    'indent_by': ['    ', '  ', '\t', ' ', ''],
+    'tab_width': [4, 8, 1, 0],
     'indent_before_comments': ['  ', ' ', '', '\t'],
 }
 
@@ -988,12 +988,24 @@ def is_degenerate(tree) -> bool:
     return walk(tree, '', 0, 0)
 
 
-def run_pair(text: str, cfgdir: str, cfgid: int, cfg: T.Dict[str, T.Any], want_ser: bool = True) -> T.Dict[str, T.Any]:
+def effective_cfg(fm) -> T.Dict[str, T.Any]:
+    """the merged configuration the formatter used for its last `format` call, as an option dict"""
+    import dataclasses
+    d = dataclasses.asdict(fm.current_config)
+    out = {k: d.get(k, DEFAULT_CFG[k]) for k in OPTION_NAMES}
+    if 'use_editor_config' in out:
+        out['use_editor_config'] = False
+    return out
+
+
+def run_pair(text: str, cfgdir: str, cfgid: T.Any, cfg: T.Optional[T.Dict[str, T.Any]], want_ser: bool = True,
+             fm: T.Any = None, path: T.Optional[Path] = None) -> T.Dict[str, T.Any]:
     """format `text`; evaluate the Python oracle; returns a result record (picklable).
     Violation keys name the root cause where a counterfactual re-run (one option switched off) or the
     location of the difference identifies it; everything else gets a generic key (never a known finding)."""
     mformat, mparser, _ = impl()
-    P = Path('meson.build')
+    from mesonbuild.mesonlib import MesonException
+    P = path or Path('meson.build')
     res: T.Dict[str, T.Any] = {'text': text, 'cfgid': cfgid, 'status': 'ok', 'viol': []}
     try:
         tin = parse(text)
@@ -1006,9 +1018,17 @@ def run_pair(text: str, cfgdir: str, cfgid: int, cfg: T.Dict[str, T.Any], want_s
     if is_degenerate(tin):
         res['status'] = 'input-degenerate'
         return res
+    if fm is None:
+        try:
+            fm = formatter_for(cfgdir, cfgid)
+        except MesonException:
+            res['status'] = 'config-rejected'   # an invalid configuration file is reported, not used
+            return res
     try:
-        fm = formatter_for(cfgdir, cfgid)
         out = fm.format(text, P)
+        if cfg is None:
+            cfg = effective_cfg(fm)
+            res['eff_cfg'] = nondefault(cfg)
     except RecursionError:
         res['status'] = 'recursion'
         return res
@@ -1220,8 +1240,6 @@ def classify_idem(text: str, out: str, out2: str, cfg: T.Dict[str, T.Any], cfgdi
                             pass
                     keys = [k_ + sub if k_.endswith('no_single_comma_function') else k_ for k_ in keys]
                 return keys
-    if re.search(r'\\[ \t]*(#.*)?\n([ \t]*(#.*)?\n)*[ \t]*(#.*)?$', out):
-        return ['idempotence:trailing-continuation']
     if re.search(r'[\[({][ \t]*\\[ \t]*(#.*)?\n', out):
         return ['idempotence:continuation-after-bracket']
     try:
@@ -1543,12 +1561,227 @@ TARGETED: T.List[T.Tuple[str, T.Dict[str, T.Any]]] = [
     ("a = [ 1, 2 ]\nd = { 'a' : 1, 'b' : [ ] }\n", {'space_array': True}),
     ("x = a \\\n  + b \\ # c\n  + c\n", {}),
     ("a.b(c).d(e, f: g)[0].h()\n", {'max_line_length': 20}),
-    ("x = 1 \\\n", {}),                                            # idempotence:trailing-continuation
+    ("x = 1 \\\n", {}), ("x = 1 \\\n#x\n\t\n", {}), ("x = 1 \\\n", {'insert_final_newline': False}),   # was idempotence:trailing-continuation (fixed d6dbddc)
+    ("x = (a # c1\n and b # c2\n)\n", {'indent_by': ''}), ("if a\n x = (a # c1\n and (b # c2\n or c) # c3\n)\nendif\n", {'indent_by': ''}),   # was comments:lost (fixed e110272)
+    ("if a\n\tx = f(1, 2)\nendif\n", {'tab_width': 1, 'indent_by': '\t', 'max_line_length': 1}),
     ("x = f([ \\\n 'b'])\n", {}),                                 # idempotence:continuation-after-bracket
     ("files(['a'] \\\n)\n", {}), ("files([ \\\n 'a'])\n", {}), ("files(['a'], \\\n)\n", {}),   # regression of 194f0bf
     ("files(['b', 'a'], # c\n)\n", {'sort_files': True}), ("files([['b'], 'a'])\n", {'sort_files': True}),
     ("files([#\n]).d()\n", {'max_line_length': 20}), ("x = files([ # c\n]) + files([\n])\n", {'max_line_length': 20}),   # regression of 2163d30
 ]
+
+
+# --------------------------------------------------------------------------------------------- configuration sources
+# Where a setting comes from is a generator dimension: meson.format only / .editorconfig only / both with
+# different values / neither; .editorconfig activated by `--editor-config`, by `use_editor_config = true`, or not
+# at all; configuration file given with `--configuration` or discovered as `meson.format`; section glob;
+# root or nested .editorconfig.  The oracle is the CLI leg: check modes report a difference iff `--inplace`
+# changes the bytes; a second `--inplace` is a no-op; plus the in-process clauses under the merged configuration.
+
+SCEN_TEXTS = [
+    "x = 1\n",
+    "if a\n  f(1, [2, 3], k: 'v')\nendif",
+    "e = executable('prog', 'a.c', 'b.c', dependencies : [dep_one, dep_two], install : true)\n",
+    "if a\n\tforeach i : [1, 2]\n\t\tmessage('@0@'.format(i), 'some longer text here', i) # c\n\tendforeach\nendif\n",
+    "x = [\n  1,\n  2,\n]\n# end\n",
+]
+SCEN_GLOBS = ['*', 'meson.build', '*.build', '**/meson.build', '*.{build,options}']
+
+
+def harvest_editorconfig_supply() -> T.Dict[str, T.List[T.Tuple[T.List[str], T.Any]]]:
+    """{FormatterConfig field: [(.editorconfig lines, value it yields)]}, harvested from the live
+    `EditorConfig` dataclass and `FormatterConfig.with_editorconfig` (every field x candidate values of its
+    type, and pairs of `indent_*` fields)"""
+    import dataclasses
+    mformat, _, _ = impl()
+    default = mformat.FormatterConfig.default()
+    cands: T.Dict[str, T.List[T.Any]] = {}
+    for f in dataclasses.fields(mformat.EditorConfig):
+        t = str(f.type)
+        vals: T.List[T.Any] = re.findall(r"'([^']*)'", t) if 'Literal' in t else []
+        if 'bool' in t:
+            vals += [True, False]
+        if 'int' in t:
+            vals += [2, 8, 40]
+        cands[f.name] = vals
+    supply: T.Dict[str, T.List[T.Tuple[T.List[str], T.Any]]] = {}
+
+    def add(kw: T.Dict[str, T.Any]) -> None:
+        try:
+            eff = default.with_editorconfig(mformat.EditorConfig(**kw))
+        except Exception:
+            return
+        lines = [f'{k} = {str(v).lower() if isinstance(v, bool) else v}' for k, v in kw.items()]
+        for g in dataclasses.fields(mformat.FormatterConfig):
+            if getattr(eff, g.name) != getattr(default, g.name) and (lines, getattr(eff, g.name)) not in supply.get(g.name, []):
+                supply.setdefault(g.name, []).append((lines, getattr(eff, g.name)))
+    for name, vals in cands.items():
+        for v in vals:
+            add({name: v})
+    ind = [n for n in cands if n.startswith('indent')]
+    for a, b in itertools.combinations(ind, 2):
+        for va in cands[a]:
+            for vb in cands[b][:2]:
+                add({a: va, b: vb})
+    return supply
+
+
+def fmt_lines(d: T.Dict[str, T.Any]) -> T.List[str]:
+    out = []
+    for k, v in d.items():
+        if isinstance(v, bool):
+            out.append(f'{k} = {"true" if v else "false"}')
+        elif isinstance(v, int) or k == 'end_of_line':
+            out.append(f'{k} = {v}')
+        else:
+            out.append(f"{k} = '{v}'")
+    return out
+
+
+def config_source_scenarios(deep: bool) -> T.List[T.Dict[str, T.Any]]:
+    supply = harvest_editorconfig_supply()
+    scen: T.List[T.Dict[str, T.Any]] = []
+    n = 0
+    for field in sorted(supply):
+        sups = supply[field] if deep else supply[field][:4]
+        for lines, v_ec in sups:
+            others = [v for v in OPTION_VALUES.get(field, []) if v != v_ec]
+            if not others:
+                continue
+            alt = [l for l, v in supply[field] if v != v_ec]
+            for source in ('format', 'editorconfig', 'both', 'neither'):
+                for activation in ('flag', 'key', 'off'):
+                    if source in ('format', 'neither') and activation == 'key':
+                        continue
+                    fmt: T.Dict[str, T.Any] = {}
+                    if source == 'format':
+                        fmt[field] = v_ec
+                    elif source == 'both':
+                        fmt[field] = others[n % len(others)]
+                    if activation == 'key':
+                        fmt['use_editor_config'] = True
+                    nested = n % 3 == 0 and source in ('editorconfig', 'both')
+                    scen.append({
+                        'id': n, 'field': field, 'value_editorconfig': v_ec, 'source': source, 'activation': activation,
+                        'ec_lines': lines if source in ('editorconfig', 'both') else [],
+                        'ec_root_lines': (alt[n % len(alt)] if alt else []) if nested else [],
+                        'nested': nested, 'fmt': fmt, 'glob': SCEN_GLOBS[n % len(SCEN_GLOBS)],
+                        'location': ('explicit', 'discovered')[(n // 2) % 2],
+                    })
+                    n += 1
+    return scen
+
+
+def build_scenario_tree(top: str, sc: T.Dict[str, T.Any]) -> T.Tuple[str, T.List[str]]:
+    """writes the configuration files of a scenario under `top`; -> (source path, extra CLI arguments)"""
+    os.makedirs(os.path.join(top, 'sub'), exist_ok=True)
+    sec = f'[{sc["glob"]}]'
+    if sc['nested']:
+        root_ec = ['root = true', sec] + sc['ec_root_lines']
+        with open(os.path.join(top, 'sub', '.editorconfig'), 'w', encoding='utf-8') as f:
+            f.write('\n'.join([sec] + sc['ec_lines']) + '\n')
+        src = os.path.join(top, 'sub', 'meson.build')
+    else:
+        root_ec = ['root = true', sec] + sc['ec_lines']
+        src = os.path.join(top, 'meson.build')
+    with open(os.path.join(top, '.editorconfig'), 'w', encoding='utf-8') as f:
+        f.write('\n'.join(root_ec) + '\n')
+    args: T.List[str] = []
+    if sc['activation'] == 'flag':
+        args.append('-e')
+    name = 'cfg.ini' if sc['location'] == 'explicit' else 'meson.format'
+    if sc['fmt'] or sc['location'] == 'explicit':
+        with open(os.path.join(top, name), 'w', encoding='utf-8') as f:
+            f.write('\n'.join(fmt_lines(sc['fmt'])) + '\n')
+    if sc['location'] == 'explicit':
+        args += ['-c', os.path.join(top, name)]
+    return src, args
+
+
+def cli_leg(stored: bytes, src: str, cpy: str, args_src: T.List[str], args_cpy: T.List[str], tag: str,
+            expect_idem: bool) -> T.Tuple[T.List[T.Tuple[str, str]], T.Optional[bytes]]:
+    """ground truth from the tool: `--inplace` on a copy (same configuration files around it);
+    check modes on the original must report a difference iff the copy's bytes changed; a second `--inplace`
+    on the copy is a no-op (when the formatter is idempotent on this text: `expect_idem`)"""
+    mformat, _, _ = impl()
+    from mesonbuild.mesonlib import MesonException
+    viol: T.List[T.Tuple[str, str]] = []
+    p = argparse.ArgumentParser()
+    mformat.add_arguments(p)
+    for path in (src, cpy):
+        with open(path, 'wb') as f:
+            f.write(stored)
+    try:
+        with contextlib.redirect_stdout(io.StringIO()):
+            mformat.run(p.parse_args(['-i'] + args_cpy + [cpy]))
+    except MesonException:
+        return [], None        # configuration rejected
+    except Exception as e:
+        return [('cli:inplace:raises', f'--inplace raised {type(e).__name__} ({tag})')], None
+    written = open(cpy, 'rb').read()
+    would_change = written != stored
+    for flag in ('-q', '-d'):
+        try:
+            with contextlib.redirect_stdout(io.StringIO()):
+                rc = mformat.run(p.parse_args([flag] + args_src + [src]))
+        except Exception as e:
+            viol.append((f'cli:check{flag}:raises', f'{flag} raised {type(e).__name__} ({tag})'))
+            continue
+        if (rc != 0) != would_change:
+            viol.append((f'cli:check{flag}:status', f'{flag} returned {rc} but --inplace would {"" if would_change else "not "}change the file ({tag})'))
+        if open(src, 'rb').read() != stored:
+            viol.append((f'cli:check{flag}:modifies-file', f'check mode modified the file ({tag})'))
+    if expect_idem:
+        with contextlib.redirect_stdout(io.StringIO()):
+            mformat.run(p.parse_args(['-i'] + args_cpy + [cpy]))
+        if open(cpy, 'rb').read() != written:
+            viol.append(('cli:inplace:second-run-changes', f'a second --inplace changed the file again ({tag})'))
+        else:
+            # the freshly formatted file must be reported as formatted
+            with open(src, 'wb') as f:
+                f.write(written)
+            for flag in ('-q', '-d'):
+                with contextlib.redirect_stdout(io.StringIO()):
+                    rc = mformat.run(p.parse_args([flag] + args_src + [src]))
+                if rc != 0:
+                    viol.append((f'cli:check{flag}:status', f'{flag} returned {rc} on the file --inplace has just written ({tag})'))
+    return viol, written
+
+
+def run_scenario(cfgdir: str, sc: T.Dict[str, T.Any], texts: T.List[str], newlines: T.List[str]) -> T.List[T.Dict[str, T.Any]]:
+    mformat, _, _ = impl()
+    from mesonbuild.mesonlib import MesonException
+    out = []
+    top = os.path.join(cfgdir, f'sc{sc["id"]}')
+    src, args_src = build_scenario_tree(os.path.join(top, 'a'), sc)
+    cpy, args_cpy = build_scenario_tree(os.path.join(top, 'b'), sc)
+    desc = dict(sc)
+    for ti, text in enumerate(texts):
+        # in-process clauses under the merged configuration, built as mformat.run builds it
+        try:
+            cfgfile = Path(args_src[args_src.index('-c') + 1]) if '-c' in args_src else mformat.get_meson_format([Path(src)])
+            fm = mformat.Formatter(cfgfile, '-e' in args_src, False)
+        except MesonException:
+            continue
+        with open(src, 'w', encoding='utf-8') as f:   # load_editor_config resolves the path
+            f.write(text)
+        r = run_pair(text, cfgdir, f'sc{sc["id"]}', None, want_ser=False, fm=fm, path=Path(src))
+        r['origin'] = 'scenario'
+        r['scenario'] = desc
+        if r['status'] == 'ok':
+            for fnl in newlines:
+                stored = text.replace('\n', fnl).encode('utf-8')
+                tag = f'source of {sc["field"]}: {sc["source"]}, .editorconfig {sc["activation"]}, file newline {fnl!r}'
+                v, written = cli_leg(stored, src, cpy, args_src, args_cpy, tag, bool(r.get('idem')))
+                r['viol'] += v
+                r['cli'] = True
+                eff = dict(DEFAULT_CFG)
+                eff.update(r.get('eff_cfg', {}))
+                nl = {'lf': '\n', 'crlf': '\r\n', 'cr': '\r'}.get(eff.get('end_of_line'), os.linesep)
+                if written is not None and written.decode('utf-8') != r['out'].replace('\n', nl):
+                    r['viol'].append(('cli:inplace:content', f'--inplace did not write Formatter.format(text) under the merged configuration with its line ending ({tag})'))
+        out.append(r)
+    return out
 
 
 # --------------------------------------------------------------------------------------------- worker
@@ -1559,6 +1792,11 @@ def _job(a: T.Tuple[str, T.List[T.Dict[str, T.Any]], str, T.Any]) -> T.List[T.Di
     cfgdir, cfgs, kind, payload = a
     out = []
     items: T.List[T.Tuple[str, str, int]] = []
+    if kind == 'scenario':
+        res: T.List[T.Dict[str, T.Any]] = []
+        for sc, texts, newlines in payload:
+            res += run_scenario(cfgdir, sc, texts, newlines)
+        return res
     if kind == 'gen':
         seed, n, per = payload
         rng = random.Random(seed)
@@ -1726,6 +1964,16 @@ def build_cases(ctx: Ctx, cfgs: T.List[T.Dict[str, T.Any]], cfgdir: str) -> T.Li
             items.append(('shape', sh, ci))
     for i in range(0, len(items), 400):
         jobs.append((cfgdir, cfgs, 'texts', items[i:i + 400]))
+    # configuration sources (where each setting comes from) x CLI leg
+    scen = config_source_scenarios(ctx.deep)
+    ctx.extra['config_source_scenarios'] = len(scen)
+    ctx.extra['fields_editorconfig_can_supply'] = sorted({sc['field'] for sc in scen})
+    payload = []
+    for sc in scen:
+        nls = FILE_NEWLINES if ctx.deep else [FILE_NEWLINES[sc['id'] % 3], FILE_NEWLINES[(sc['id'] + 1) % 3]]
+        payload.append((sc, SCEN_TEXTS if ctx.deep else [SCEN_TEXTS[(sc['id'] + k) % len(SCEN_TEXTS)] for k in range(3)], nls))
+    for i in range(0, len(payload), 8):
+        jobs.append((cfgdir, cfgs, 'scenario', payload[i:i + 8]))
     # corpus
     corpus = corpus_texts()
     fmt_corpus = [c for c in corpus if 'test cases/format' in c[0] or c[0].startswith('corpus/')]
@@ -1827,8 +2075,13 @@ def process(ctx: Ctx, results: T.List[T.Dict[str, T.Any]], cfgs: T.List[T.Dict[s
         ctx.count()
         ctx.tag('status:' + r['status'])
         ctx.tag('origin:' + r['origin'])
-        cfg = cfgs[r['cfgid']]
-        if r['status'] in ('input-unparseable', 'input-degenerate', 'recursion') or r['status'].startswith('input-parser-error'):
+        if r['origin'] == 'scenario':
+            cfg = dict(DEFAULT_CFG)
+            cfg.update(r.get('eff_cfg', {}))
+            ctx.tag(f'source:{r["scenario"]["field"]}:{r["scenario"]["source"]}:{r["scenario"]["activation"]}')
+        else:
+            cfg = cfgs[r['cfgid']]
+        if r['status'] in ('input-unparseable', 'input-degenerate', 'recursion', 'config-rejected') or r['status'].startswith('input-parser-error'):
             continue
         programs += 1
         for k, v in nondefault(cfg).items():
@@ -1846,8 +2099,15 @@ def process(ctx: Ctx, results: T.List[T.Dict[str, T.Any]], cfgs: T.List[T.Dict[s
             ctx.tag('oracle:' + key)
             if key in ctx.known:
                 ctx.violation(key, what, {'text': r['text'], 'cfg': nondefault(cfg)})
+            elif r['origin'] == 'scenario' and key.startswith('cli:'):
+                ctx.violation(key, what, {'text': r['text'], 'scenario': r['scenario'], 'effective_cfg': nondefault(cfg), 'repo': common.REPO})
             else:
-                unknown.setdefault(key, []).append((r['text'], r['cfgid'], what))
+                ci = r['cfgid']
+                if r['origin'] == 'scenario':   # in-process clause under a merged configuration: keep it as a plain one
+                    ci = len(cfgs)
+                    cfgs.append(cfg)
+                    write_cfgs(cfgdir, [cfg], ci)
+                unknown.setdefault(key, []).append((r['text'], ci, what))
         if 'ser_in' in r:
             lines.append(f'check {int(bool(cfg["sort_files"]))}|{r["ser_in"]}|{r["ser_out"]}')
             meta.append(('check', r))
@@ -1890,7 +2150,7 @@ def process(ctx: Ctx, results: T.List[T.Dict[str, T.Any]], cfgs: T.List[T.Dict[s
                 exp = f'S{int(r["skel_eq"])}C{int(r["com_eq"])}'
                 ctx.tag('lean:' + a if a.startswith('S') else 'lean:bad')
                 if a != exp:
-                    ctx.disagreement({'kind': 'check', 'text': r['text'], 'cfg': nondefault(cfgs[r['cfgid']]), 'lean': a, 'python': exp})
+                    ctx.disagreement({'kind': 'check', 'text': r['text'], 'cfg': nondefault(cfgs[r['cfgid']]) if isinstance(r['cfgid'], int) else r.get('eff_cfg'), 'lean': a, 'python': exp})
             else:
                 exp = enc_list(lex_comments(r['text']))
                 if a != exp:
@@ -1961,7 +2221,20 @@ def replay(ctx: Ctx, rep: dict) -> None:
     print('replay', rep.get('key'), rep.get('what'))
     cfgdir = common.scratch_dir('mverif-c16r-')
     try:
-        if 'text' in case:
+        if 'scenario' in case:
+            sc = case['scenario']
+            print('input   :', repr(case['text']))
+            print('scenario:', {k: sc[k] for k in ('field', 'source', 'activation', 'glob', 'location', 'nested', 'ec_lines', 'ec_root_lines', 'fmt')})
+            found = False
+            for r in run_scenario(cfgdir, sc, [case['text']], FILE_NEWLINES):
+                print('output  :', repr(r.get('out')), 'effective configuration:', r.get('eff_cfg'))
+                for key, what in r['viol']:
+                    print('oracle:', key, what)
+                    ctx.violation(key, what, case)
+                    found = True
+            if not found:
+                print('oracle: no violation on this tree')
+        elif 'text' in case:
             cfg = dict(DEFAULT_CFG)
             cfg.update(case.get('cfg', {}))
             write_cfgs(cfgdir, [cfg])
